@@ -54,6 +54,13 @@ CHECKS["C10"] = (
     "DESIGN.md §2 C10",
 )
 
+CHECKS["C06"] = (
+    "metamorphic twin executions of the real code: loader's dataset vs twin with garbage (0, +-1e30, +-inf, NaN, random) at masked positions / padded ages (bit-identity) and vs twin with widened padding (5e-6); state terms, statistics, one M-step, three personalisation families, short seeded fits",
+    "Held on every comparison observed over model kinds (Gaussian scalar/diagonal, Bernoulli, joint, mixture, shared-speed), missing patterns incl. whole feature missing for a subject, 8 garbage classes and 3 padding widths. Exploration.",
+    "Trusts that writing into Dataset.values/timepoints/mask after the loader ran reaches the same state space the loader's zero fill hides; MCMC outputs judged only under garbage (bit-identical chains).",
+    "DESIGN.md §2 C06",
+)
+
 NOT_YET = {}
 
 QUICK_BASELINE = (
